@@ -175,6 +175,10 @@ def proof_side(pid, thorough):
     cmd = ["lake", "build"] + mods + ["ohdriver"]
     out["checker_cmd"] = f"cd /verif/lean && lake build {mod} ohdriver && lake env lean .audit/{pid}.lean  (# print axioms ⊆ {{propext, Classical.choice, Quot.sound}})"
     p = run(cmd, cwd=LEAN, timeout=3600)
+    if p.returncode != 0:
+        # another lake process (a concurrent check) may hold the build directory: one retry
+        time.sleep(5)
+        p = run(cmd, cwd=LEAN, timeout=3600)
     out["log"] = p.stdout[-6000:]
     props_ok = p.returncode == 0
     if not props_ok:
